@@ -131,13 +131,14 @@ def run_batch(ctx, rng, ej, tj, equipment, network, model, batch_no):
         groups.append([add(a, z, con), add(a, z, False)])
     elif shape == 'triple':
         b, y = rng.choice(pairs)
-        groups.append([add(a, z, con), add(b, y, False), add(*rng.choice(pairs), False)])
+        groups.append([add(a, z, con), add(b, y, rng.random() < 0.25), add(*rng.choice(pairs), rng.random() < 0.25)])
     elif shape == 'overlap':
-        r0, r1, r2 = add(a, z, con), add(*rng.choice(pairs), False), add(*rng.choice(pairs), False)
-        groups += [[r0, r1], [r0, r2]]
+        # (any member may carry a route constraint, also the ones that only belong to the group processed later)
+        r0, r1, r2 = add(a, z, con), add(*rng.choice(pairs), rng.random() < 0.3), add(*rng.choice(pairs), rng.random() < 0.4)
+        groups += [[r0, r1], [r0, r2]] if rng.random() < 0.7 else [[r0, r2], [r1, r0]]
     else:
-        groups += [[add(a, z, con), add(*rng.choice(pairs), False)],
-                   [add(*rng.choice(pairs), False), add(*rng.choice(pairs), False)]]
+        groups += [[add(a, z, con), add(*rng.choice(pairs), rng.random() < 0.25)],
+                   [add(*rng.choice(pairs), rng.random() < 0.25), add(*rng.choice(pairs), False)]]
     for _ in range(rng.randint(0, 2)):
         add(*rng.choice(pairs), False)
     # identical requests would be aggregated (ids joined): keep every request distinct by its bandwidth
